@@ -71,13 +71,29 @@ func (g *G) Degree(v int) int {
 	return d
 }
 
-// FromGraph6 decodes a graph6 string for n <= 62 (one size byte).
+// FromGraph6 decodes a graph6 string (one size byte for n <= 62, "~" and three bytes up to 258047).
 func FromGraph6(s string) (*G, error) {
 	if len(s) == 0 {
 		return nil, fmt.Errorf("empty graph6")
 	}
 	n := int(s[0]) - 63
-	if n < 0 || n > 62 {
+	if n == 63 {
+		if len(s) < 4 {
+			return nil, fmt.Errorf("graph6 size bytes missing")
+		}
+		n = 0
+		for i := 1; i <= 3; i++ {
+			c := int(s[i]) - 63
+			if c < 0 || c > 63 {
+				return nil, fmt.Errorf("graph6 size byte out of range")
+			}
+			n = n<<6 | c
+		}
+		if n < 63 || n > 2000 {
+			return nil, fmt.Errorf("graph6 size out of range")
+		}
+		s = s[3:]
+	} else if n < 0 || n > 62 {
 		return nil, fmt.Errorf("graph6 size byte out of range")
 	}
 	bits := n * (n - 1) / 2
@@ -109,7 +125,7 @@ func MustGraph6(s string) *G {
 	return g
 }
 
-// Graph6 encodes g (n <= 62).
+// Graph6 encodes g.
 func (g *G) Graph6() string {
 	return g.RelabelledGraph6(nil)
 }
@@ -117,12 +133,17 @@ func (g *G) Graph6() string {
 // RelabelledGraph6 is the graph6 string of the graph h with h(i,j) = g(p[i],p[j]); p == nil is the identity.
 func (g *G) RelabelledGraph6(p []int) string {
 	n := g.N
-	if n > 62 {
-		panic("graph6: n > 62")
+	if n > 2000 {
+		panic("graph6: n > 2000")
 	}
 	bits := n * (n - 1) / 2
 	out := make([]byte, 1+(bits+5)/6)
 	out[0] = byte(n + 63)
+	var prefix string
+	if n > 62 {
+		out[0] = byte(n&63 + 63)
+		prefix = string([]byte{126, byte(n>>12&63 + 63), byte(n>>6&63 + 63)})
+	}
 	k := 0
 	for j := 1; j < n; j++ {
 		for i := 0; i < j; i++ {
@@ -141,7 +162,7 @@ func (g *G) RelabelledGraph6(p []int) string {
 	for i := 1; i < len(out); i++ {
 		out[i] += 63
 	}
-	return string(out)
+	return prefix + string(out)
 }
 
 // Relabel returns h with h(i,j) = g(p[i],p[j]) (vertex i of h is vertex p[i] of g): the
